@@ -310,6 +310,11 @@ func (uconn *UConn) RemoveSNIExtension() error {
 		return fmt.Errorf("cannot call RemoveSNIExtension on a UConn with a HelloGolang ClientHelloID")
 	}
 	uconn.omitSNIExtension = true
+	if uconn.clientHelloBuildStatus == BuildByUtls {
+		// the preset has been applied already and will not be applied again:
+		// take the extension out of the list that was built
+		uconn.removeSNIExtension()
+	}
 	return nil
 }
 
